@@ -198,22 +198,25 @@ def random_batches(seed, tier, n_quick, n_thorough, nops, dicts=("A",), **kw):
 CLASS_RE = re.compile(r'^<<"CLASS", "([^"]*)">>')
 
 
-def design_phys(out, maxops, v4, cycles, timeout=3000, invs="InvFree InvCounts InvWF InvAbs NoGrowth InvOpen", what=None, classes=None, data=False):
+def design_phys(out, maxops, v4, cycles, timeout=3000, invs="InvFree InvCounts InvWF InvAbs NoGrowth InvOpen", what=None, classes=None, data=False,
+                meta=False, sizes="{0, 1, 3, 7, 8, 9, 13}"):
     """Exhaustive design-level run of MC_Phys (CfbPhys at tiny geometry).  Its verdict is about the
     model; conformance of the code to the model is what phys_fidelity reports."""
     b = lambda x: "TRUE" if x else "FALSE"
     cfg = f"""SPECIFICATION Spec
-CONSTANTS Names = {{"a", "b", "c"}} Sizes = {{0, 1, 3, 7, 8, 9, 13}} MaxOps = {maxops} V4 = {b(v4)} Cycles = {b(cycles)} OldPolicy = FALSE
+CONSTANTS Names = {{"a", "b", "c"}} Sizes = {sizes} MaxOps = {maxops} V4 = {b(v4)} Cycles = {b(cycles)} OldPolicy = FALSE
 INVARIANT {invs}
 CHECK_DEADLOCK FALSE
 """
-    tag = f"mcp_{out.prop}_{maxops}_{int(v4)}_{int(cycles)}_{len(invs)}_{int(data)}"
+    tag = f"mcp_{out.prop}_{maxops}_{int(v4)}_{int(cycles)}_{len(invs)}_{int(data)}_{int(meta)}"
     path = os.path.join(core.SPEC, f"_{tag}.cfg")
     open(path, "w").write(cfg)
     try:
         env = {"CLASSES": "1"} if classes is not None else {}
         if data:
             env["DATA"] = "1"
+        if meta:
+            env["META"] = "1"
         rc, lines = core.run_tlc("MC_Phys.tla", os.path.basename(path), env,
                                  os.path.join(core.WORK, f"md_{tag}"), workers=6, timeout=timeout, xmx="8g", deque=False)
     finally:
@@ -232,6 +235,33 @@ CHECK_DEADLOCK FALSE
                       "invariants": invs, "states": distinct, "transitions": gen})
 
 
+def design_rb(out, k, depth, timeout=1500):
+    """MC_RB: every sibling tree the strict reader accepts (search tree, no red-red edge; red entries, any shape) over up to k
+    names x CfbPhys's InsertEntry / RemoveEntry: the class is closed under the library's mutations (C04 / C03 R7, design level)."""
+    cfg = f"SPECIFICATION Spec\nCONSTANTS K = {k} Depth = {depth}\nINVARIANT InClass\nCHECK_DEADLOCK FALSE\n"
+    tag = f"mcrb_{out.prop}_{k}_{depth}"
+    path = os.path.join(core.SPEC, f"_{tag}.cfg")
+    open(path, "w").write(cfg)
+    try:
+        rc, lines = core.run_tlc("MC_RB.tla", os.path.basename(path), {}, os.path.join(core.WORK, f"md_{tag}"), workers=4, timeout=timeout,
+                                 xmx="6g", deque=False)
+    finally:
+        os.remove(path)
+    if not core.tlc_ok(lines):
+        raise core.ToolError("MC_RB (design level) failed:\n" + "\n".join(lines[-30:]))
+    gen, distinct = core.tlc_stats(lines)
+    init = 0
+    for ln in lines:
+        m = re.search(r"initial states: (\d+) distinct", ln)
+        if m:
+            init = int(m.group(1))
+    out.add_design(gen, distinct)
+    out.parts.append({"design": f"MC_RB K={k} Depth={depth}: every sibling tree a strict reader accepts over up to {k} names (every subset x every search-tree "
+                                f"shape x every colouring without a red-red edge: {init} trees) x insertion / removal of every name by CfbPhys's InsertEntry / "
+                                "RemoveEntry; InClass (search tree, every live slot reachable once, no red-red edge, freed slots blank) holds after every mutation",
+                      "invariants": "InClass", "states": distinct, "transitions": gen, "trees_in_class": init})
+
+
 class Fidelity:
     """Collects Trace_Phys output: how many images the physical model predicted exactly, and where it did not."""
 
@@ -248,8 +278,9 @@ class Fidelity:
             kinds[k] = kinds.get(k, 0) + 1
         for k, n in sorted(kinds.items()):
             print(f"SPEC-DRIFT {prop} CfbPhys does not predict the image: {k} x{n}")
+        foreign = sum(int(m.group(1)) for m in (re.match(r'^<<"FOREIGN", (\d+)>>', ln) for ln in self.lines) if m)
         res = {"images_predicted_exactly_by_CfbPhys": compared - len(set(ln.split(",")[2] for ln in drift)), "images_compared": compared,
-               "drift": kinds}
+               "histories_followed_from_a_foreign_start_image": foreign, "drift": kinds}
         real = {}
         for ln in self.lines:
             m = CLASS_RE.match(ln)
@@ -488,14 +519,26 @@ def check_c15(tier, seed):
 
 def check_c17(tier, seed):
     out = Outcome("C17", tier, seed)
-    run_batch(out, "meta", "A", gens.c17_histories(tier, seed))
-    run_batch(out, "setter-after-removal", "A", gens.c17_setter_after_removal(tier))
+    # design level: CfbPhys with the metadata setters in the alphabet (tiny geometry, exhaustive): every entry carries exactly
+    # the CLSID, state bits and times of the abstract history through slot reuse, relinking, directory growth, overwrite and reopen
+    design_phys(out, 5 if tier == "quick" else 6, False, False, invs="InvFree InvCounts InvWF InvAbs InvMeta InvOpen", meta=True,
+                sizes="{0, 3, 9}" if tier == "quick" else "{0, 9}",
+                what="metadata refinement (InvMeta): CLSID, state bits, creation / modification times of every entry equal the abstract history's; "
+                     "streams nil / zero; freed slots blank; with WF, lengths refinement and acceptance by the open-path model")
+    if tier != "quick":
+        design_phys(out, 5, True, False, invs="InvFree InvCounts InvWF InvAbs InvMeta InvOpen", meta=True, sizes="{0, 3, 9}",
+                    what="metadata refinement (InvMeta), version 4")
+    fid = Fidelity()
+    run_batch(out, "meta", "A", gens.c17_histories(tier, seed), extra_specs=("Trace_Phys",), keep=fid.lines)
+    run_batch(out, "setter-after-removal", "A", gens.c17_setter_after_removal(tier), extra_specs=("Trace_Phys",), keep=fid.lines)
     hs = random_batches(seed + 6, tier, 30, 300, 40, dicts=("A",), meta_p=0.3)["A"]
-    run_batch(out, "random", "A", hs)
+    run_batch(out, "random", "A", hs, extra_specs=("Trace_Phys",), keep=fid.lines)
     return finish(out, "model_checking",
                   "setters / getters against CfbTree metadata; expected FILETIME quantisation from a Python big-integer table (values.json); "
-                  "targets placed around directory-sector boundaries; both reopen modes",
-                  FILE_ASSUME + ["numeric time conversion is decided by table lookup for a finite instant dictionary, not by TLC arithmetic"])
+                  "targets placed around directory-sector boundaries; both reopen modes; design level: InvMeta of MC_Phys (CfbPhys with the setters, "
+                  "exhaustive at tiny geometry); fidelity: Trace_Phys predicts colour, CLSID, state bits and times of every directory slot of every recorded image",
+                  FILE_ASSUME + ["numeric time conversion is decided by table lookup for a finite instant dictionary, not by TLC arithmetic"],
+                  {"fidelity": fid.summary("C17")})
 
 
 def check_c07(tier, seed):
